@@ -71,7 +71,7 @@ contract(
 # ---- filtering of program / routine / task / module / system symbols
 RAW = ("[{'tag_name': n, 'instance_id': 100 + i, 'symbol_type': st, 'symbol_address': 0, 'symbol_object_address': 0, 'software_control': 1 << 26, "
        "'external_access': 'Read/Write', 'dimensions': [0, 0, 0]} for i, (n, st) in enumerate(names)]")
-NAMES = ("[('Program:Main', 0x68), ('Task:Fast', 0x70), ('Map:Local', 0xC4), ('Cxn:Standard:1', 0xC4), ('plain', 0xC4), ('__hidden', 0xC4), "
+NAMES = ("[('Program:Main', 0x68), ('Program:Pump_Control', 0x68), ('Program:agitator', 0x68), ('Program:Program_B', 0x68), ('Task:Fast', 0x70), ('Task:skate', 0x70), ('Map:Local', 0xC4), ('Cxn:Standard:1', 0xC4), ('plain', 0xC4), ('__hidden', 0xC4), "
          "('Local:1:I', 0xC4), ('Local:2:O', 0xC4), ('Rack:C', 0xC4), ('odd:name', 0xC4), ('sys_flagged', 0x10C4), ('_single', 0xC3), "
          "('Local:1:I', 0xC4), ('Drive:I1', 0xC4), ('Drive:O1', 0xC4), ('Guard:2:SI', 0xC4), ('Guard:2:SO', 0xC4), ('Rack:3:C', 0xC4), "
          "('weird:Task', 0xC4), ('a:Ix:y', 0xC4)]")
@@ -79,15 +79,24 @@ contract(
     id="upload.isolate.controller", func=LD + "._isolate_user_tags", call="[x['tag_name'] for x in d._isolate_user_tags(raw, None)]",
     setup=[f"d = {LD}('10.0.0.1')", "d._info = {'programs': {}, 'tasks': {}, 'modules': {}}",
            "d._cache = {'tag_name:id': {}, 'id:struct': {}, 'handle:id': {}, 'id:udt': {}}", f"names = {NAMES}", f"raw = {RAW}"],
-    ensures=["result == [n for (n, st) in names if spec.logix.user_visible(n, st)]", "list(d._info['programs']) == ['Main']",
-             "list(d._info['tasks']) == ['Fast']", "sorted(d._info['modules']) == ['Drive', 'Guard', 'Local', 'Rack', 'a']"],
+    ensures=["result == [n for (n, st) in names if spec.logix.user_visible(n, st)]", "list(d._info['programs']) == ['Main', 'Pump_Control', 'agitator', 'Program_B']",
+             "list(d._info['tasks']) == ['Fast', 'skate']", "sorted(d._info['modules']) == ['Drive', 'Guard', 'Local', 'Rack', 'a']"],
     props=["C05"])
 contract(
     id="upload.isolate.program", func=LD + "._isolate_user_tags", call="[x['tag_name'] for x in d._isolate_user_tags(raw, 'Main')]",
     setup=[f"d = {LD}('10.0.0.1')", "d._info = {'programs': {'Main': {'instance_id': 1, 'routines': []}}, 'tasks': {}, 'modules': {}}",
            "d._cache = {'tag_name:id': {}, 'id:struct': {}, 'handle:id': {}, 'id:udt': {}}",
-           "names = [('Routine:MainRoutine', 0x6D), ('counter', 0xC4), ('__x', 0xC4)]", f"raw = {RAW}"],
-    ensures=["result == ['Program:Main.counter']", "d._info['programs']['Main']['routines'] == ['MainRoutine']"], props=["C05"])
+           "names = [('Routine:MainRoutine', 0x6D), ('Routine:einRoutine', 0x6D), ('counter', 0xC4), ('__x', 0xC4)]", f"raw = {RAW}"],
+    ensures=["result == ['Program:Main.counter']", "d._info['programs']['Main']['routines'] == ['MainRoutine', 'einRoutine']"], props=["C05"])
+# any program / task name: the name recorded is the symbol name without its prefix, whatever letters it starts with
+contract(
+    id="upload.isolate.scope_names", func=LD + "._isolate_user_tags", call="[x['tag_name'] for x in d._isolate_user_tags(raw, None)]",
+    params={"pname": P.str(**NAME), "tname": P.str(**NAME)},
+    setup=[f"d = {LD}('10.0.0.1')", "d._info = {'programs': {}, 'tasks': {}, 'modules': {}}",
+           "d._cache = {'tag_name:id': {}, 'id:struct': {}, 'handle:id': {}, 'id:udt': {}}",
+           "names = [('Program:' + pname, 0x68), ('Task:' + tname, 0x70), ('plain', 0xC4)]", f"raw = {RAW}"],
+    ensures=["result == ['plain']", "list(d._info['programs']) == [pname]", "list(d._info['tasks']) == [tname]"], props=["C05"],
+    bounded="the names become dictionary keys (info['programs'][name]): symbolic keys in a store are outside the engine; sampled natively")
 
 # ---- tag record from the symbol type bits
 for _code, _tname in ((0xC4, "DINT"), (0xC1, "BOOL"), (0xCA, "REAL"), (0xD3, "DWORD")):
